@@ -68,9 +68,7 @@ pub struct RecvError(pub ());
 impl<T> Receiver<T> {
     /// prophecy: what the next `poll` of this receiver returns
     pub uninterp spec fn next(&self) -> std::task::Poll<Result<T, RecvError>>;
-    /// a `poll` has returned Ready (tokio panics with "called after complete" when polled again: the
-    /// precondition of `poll` is a proof obligation of every caller)
-    pub uninterp spec fn done(&self) -> bool;
+    // `done()` - a `poll` has returned Ready - is declared in prelude/pool_guard.rs, next to `id()` and `channel()`
     /// `close()` was called: no value can be sent any more
     pub uninterp spec fn closed(&self) -> bool;
 
